@@ -11,14 +11,27 @@
 //! state is threaded through the dispatches: the several-paths modes run with one worker thread so
 //! that the dispatch order is the argument order, and both an order and its reverse are run.
 //! Independently of the model every run is judged against the property text.
+//!
+//! Library level: a recording implementation of the public `Formatter` trait is attached to
+//! `Linter::lint_string` and `Linter::lint_paths` (lint and fix mode); it must be handed every file once, with
+//! exactly the violations of the returned `LintedFile`, none of them covered by the file's own ignore mask.
+//! The end of `lint_parsed` (last ignore-mask filter, hand-over, result) is compared with its model on inputs
+//! rebuilt through the public API (`parse_string`, `lint_fix_parsed`, `IgnoreMask::is_masked`). The class
+//! `masked` decorates statements with noqa directives so that violations with and without a rule are covered.
+//! What `sqruff fix` prints is compared with the library's violations too (group `fixrep`).
 use std::collections::BTreeSet;
 use std::io::Write as _;
 use std::path::{Path, PathBuf};
 use std::process::{Command, Stdio};
+use std::sync::{Arc, Mutex};
 
 use serde_json::{Value, json};
+use sqruff_lib::cli::formatters::Formatter;
 use sqruff_lib::core::config::FluffConfig;
 use sqruff_lib::core::linter::core::Linter;
+use sqruff_lib::core::linter::linted_file::LintedFile;
+use sqruff_lib_core::errors::SQLBaseError;
+use sqruff_lib_core::parser::segments::base::Tables;
 
 use crate::common::*;
 
@@ -59,7 +72,31 @@ const FIX_MODES: [&str; 3] = ["directory", "path", "stdin"];
 #[derive(Clone, Debug, PartialEq, Eq, PartialOrd, Ord)]
 struct RLine(usize, usize, Option<String>);
 
-#[derive(Clone)]
+/// noqa directives appended to a statement or put on a line of their own by the `masked` generator: line and range
+/// forms, for everything and for named rules, well-formed and malformed, inline and block comments
+const NOQA: &[&str] = &[
+    "-- noqa",
+    "-- noqa",
+    "-- noqa",
+    "--noqa",
+    "-- NOQA",
+    "/* noqa */",
+    "-- noqa: LT01",
+    "-- noqa: CP01,LT01,AL04",
+    "-- noqa: AM04, LT05",
+    "-- noqa:",
+    "-- noqax",
+    "-- noqa: disable=",
+    "-- noqa: enable=",
+    "-- noqa: disable=all",
+    "-- noqa: disable=all",
+    "/* noqa: disable=all */",
+    "-- noqa: enable=all",
+    "-- noqa: disable=LT01,CP01",
+    "-- noqa: enable=LT01",
+];
+
+#[derive(Clone, Debug, PartialEq, Eq)]
 struct V {
     line: usize,
     col: usize,
@@ -239,15 +276,83 @@ fn parse_reports(fmt: &str, r: &Run) -> Option<Vec<Rep>> {
     Some(files)
 }
 
+fn v_of(v: &SQLBaseError) -> V {
+    V { line: v.line_no, col: v.line_pos, rule: v.rule.as_ref().map(|r| r.code.to_string()), warning: v.warning, ignore: v.ignore, fixable: v.fixable }
+}
+
+/// One `dispatch_file_violations` call as an implementation of the public `Formatter` trait sees it: the path of the
+/// `LintedFile`, its violations, and how many of them the file's own ignore mask covers.
+#[derive(Clone)]
+struct Seen(String, Vec<V>, usize);
+
+/// A front-end that only records what it is asked to report.
+#[derive(Default)]
+struct Recorder {
+    seen: Mutex<Vec<Seen>>,
+}
+impl Formatter for Recorder {
+    fn dispatch_template_header(&self, _: String, _: FluffConfig, _: FluffConfig) {}
+    fn dispatch_parse_header(&self, _: String) {}
+    fn dispatch_file_violations(&self, lf: &LintedFile, _only_fixable: bool) {
+        let covered = lf.violations.iter().filter(|v| lf.ignore_mask.as_ref().is_some_and(|m| m.is_masked(v))).count();
+        self.seen.lock().unwrap().push(Seen(lf.path.clone(), lf.violations.iter().map(v_of).collect(), covered));
+    }
+    fn has_fail(&self) -> bool {
+        self.seen.lock().unwrap().iter().any(|s| !s.1.is_empty())
+    }
+    fn completion_message(&self) {}
+}
+
+/// The inputs of the end of `Linter::lint_parsed`, rebuilt through the public API: the violations of the
+/// `ParsedString` followed by those of `lint_fix_parsed` (malformed noqa directives, rule violations of the first
+/// pass), each with the answer of the file's ignore mask.
+fn lib_collect(cfg: &str, pe: bool, sql: &str, fix: bool) -> Result<Vec<(V, bool)>, String> {
+    catch(|| {
+        let linter = Linter::new(FluffConfig::from_source(cfg, None), None, None, pe);
+        let tables = Tables::default();
+        let parsed = linter.parse_string(&tables, sql, None).unwrap();
+        let mut raw: Vec<SQLBaseError> = parsed.violations.clone();
+        let mut mask = None;
+        if let Some(tree) = parsed.tree.clone() {
+            let (_tree, m, errs) = linter.lint_fix_parsed(&tables, tree, &parsed.templated_file, fix);
+            raw.extend(errs.into_iter().map(SQLBaseError::from));
+            mask = m;
+        }
+        raw.iter().map(|v| (v_of(v), mask.as_ref().is_some_and(|m| m.is_masked(v)))).collect()
+    })
+}
+
+/// `Linter::lint_string` with a recording formatter: (what the formatter was given, the returned violations)
+fn lib_fed_string(cfg: &str, pe: bool, sql: &str, fix: bool) -> Result<(Vec<Seen>, Vec<V>), String> {
+    catch(|| {
+        let rec = Arc::new(Recorder::default());
+        let f: Arc<dyn Formatter> = rec.clone();
+        let linter = Linter::new(FluffConfig::from_source(cfg, None), Some(f), None, pe);
+        let lf = linter.lint_string(sql, None, fix);
+        let ret = lf.violations.iter().map(v_of).collect();
+        let seen = rec.seen.lock().unwrap().clone();
+        (seen, ret)
+    })
+}
+
+/// `Linter::lint_paths` with a recording formatter: (what the formatter was given, the returned files)
+fn lib_fed_paths(cfg: &str, pe: bool, paths: Vec<PathBuf>, fix: bool) -> Result<(Vec<Seen>, Vec<(String, Vec<V>)>), String> {
+    catch(|| {
+        let rec = Arc::new(Recorder::default());
+        let f: Arc<dyn Formatter> = rec.clone();
+        let mut linter = Linter::new(FluffConfig::from_source(cfg, None), Some(f), None, pe);
+        let res = linter.lint_paths(paths, fix, &|_| false);
+        let ret = res.paths.iter().flat_map(|d| d.files.iter()).map(|lf| (lf.path.clone(), lf.violations.iter().map(v_of).collect())).collect();
+        let seen = rec.seen.lock().unwrap().clone();
+        (seen, ret)
+    })
+}
+
 fn lib_lint(cfg: &str, pe: bool, sql: &str, fix: bool) -> Result<(Vec<V>, String), String> {
     catch(|| {
         let linter = Linter::new(FluffConfig::from_source(cfg, None), None, None, pe);
         let lf = linter.lint_string(sql, None, fix);
-        let vs = lf
-            .violations
-            .iter()
-            .map(|v| V { line: v.line_no, col: v.line_pos, rule: v.rule.as_ref().map(|r| r.code.to_string()), warning: v.warning, ignore: v.ignore, fixable: v.fixable })
-            .collect();
+        let vs = lf.violations.iter().map(v_of).collect();
         let fixed = if fix { lf.fix_string() } else { String::new() };
         (vs, fixed)
     })
@@ -272,6 +377,46 @@ fn write_files(dir: &Path, files: &[String]) -> std::io::Result<()> {
         std::fs::File::options().write(true).open(&f)?.set_modified(old_time())?;
     }
     Ok(())
+}
+
+/// The report printed by a `sqruff fix` run against the library's violations (fix mode) of the linted files.
+#[allow(clippy::too_many_arguments)]
+fn fix_report(out: &mut Buf, c: &Case, fmt: &str, gfmt: &str, mode: &str, r: &Run, idxs: &[usize], fix_vs: &[Vec<V>], stdin: bool) {
+    let tag = format!("fixrep-{}-{}", fmt, mode);
+    let din = json!({"input":c.input(),"format":fmt,"mode":format!("fix-{}", mode)});
+    // in stdin mode stdout carries the fixed text: the human and GitHub formats report on stderr
+    let reps = parse_reports(fmt, r);
+    let name_of = |i: usize| if stdin { "<string>".to_string() } else { fname(i) };
+    let obs: Option<Vec<Vec<RLine>>> = reps.as_ref().map(|reps| {
+        idxs.iter()
+            .map(|i| {
+                let mut v: Vec<RLine> = reps.iter().filter(|f| f.0 == name_of(*i)).flat_map(|f| f.2.clone()).collect();
+                v.sort();
+                v
+            })
+            .collect()
+    });
+    let lib: Vec<Vec<RLine>> = idxs
+        .iter()
+        .map(|i| {
+            let mut v: Vec<RLine> = fix_vs[*i].iter().map(|v| v.rl()).collect();
+            v.sort();
+            v
+        })
+        .collect();
+    match &obs {
+        None => out.direct(&tag, false, &format!("c18-fix-report-unreadable-{}-{}", fmt, mode), &format!("the report of fix cannot be read: stdout {} stderr {}", trunc(&r.stdout, 200), trunc(&r.stderr, 200)), din),
+        Some(o) if *o != lib => out.direct(&tag, false, &format!("c18-fix-report-differs-{}-{}", fmt, mode), &format!("fix reports {:?}, the library found {:?} (exit {:?})", o, lib, r.status), din),
+        Some(_) => out.direct(&tag, true, "", "", Value::Null),
+    }
+    let gargs = format!("({},{})", gfmt, g_list(idxs.iter().map(|i| g_list(fix_vs[*i].iter().map(|v| v.g())))));
+    let exp = match &obs {
+        Some(o) => format!("(Some {})", g_list(o.iter().map(|v| g_list(v.iter().map(g_rl))))),
+        None => "None".to_string(),
+    };
+    let sample = json!({"input":c.input_only(&tag),"status":r.status,"reported":obs.as_ref().map(|o| o.iter().map(|v| v.iter().map(j_rl).collect::<Vec<_>>()).collect::<Vec<_>>()),
+        "library":lib.iter().map(|v| v.iter().map(j_rl).collect::<Vec<_>>()).collect::<Vec<_>>()});
+    out.case("fixrep", &tag, idxs.iter().any(|i| !fix_vs[*i].is_empty()), gargs, exp, sample);
 }
 
 fn run_case(env: &Env, idx: usize, c: &Case, out: &mut Buf) {
@@ -325,6 +470,64 @@ fn run_case(env: &Env, idx: usize, c: &Case, out: &mut Buf) {
     let mut base: Vec<&str> = vec!["--config", "../cfg"];
     if c.parsing_errors {
         base.push("--parsing-errors");
+    }
+
+    // ---- what an implementation of the public Formatter trait is handed vs what the call returns (both entry
+    // points of the library, lint and fix mode), and the end of lint_parsed against its model
+    for fix in [false, true] {
+        let what = if fix { "fix" } else { "lint" };
+        let reference = if fix { &fix_vs } else { &lint_vs };
+        let abs: Vec<PathBuf> = c.order.iter().map(|i| w.join(fname(*i))).collect();
+        let by_paths = lib_fed_paths(&cfg, c.parsing_errors, abs, fix);
+        for (i, sql) in c.files.iter().enumerate() {
+            let Ok(raw) = lib_collect(&cfg, c.parsing_errors, sql, fix) else {
+                out.count("library_panic_skipped(C03)", 1);
+                continue;
+            };
+            out.count("collected_violations", raw.len());
+            out.count("collected_violations_covered_by_noqa", raw.iter().filter(|x| x.1).count());
+            out.count("collected_violations_without_rule_covered_by_noqa", raw.iter().filter(|x| x.1 && x.0.rule.is_none()).count());
+            let path = w.join(fname(i)).to_string_lossy().to_string();
+            for entry in ["string", "paths"] {
+                let tag = format!("fed-{}-{}", entry, what);
+                let din = json!({"input":input,"entry":entry,"fix":fix,"file":i});
+                // (dispatches for this file, returned violations of this file)
+                let got: Result<(Vec<Seen>, Option<Vec<V>>), String> = if entry == "string" {
+                    lib_fed_string(&cfg, c.parsing_errors, sql, fix).map(|(s, r)| (s, Some(r)))
+                } else {
+                    by_paths.clone().map(|(s, r)| (s.into_iter().filter(|x| x.0 == path).collect(), r.into_iter().find(|x| x.0 == path).map(|x| x.1)))
+                };
+                let (seen, ret) = match got {
+                    Ok((seen, Some(ret))) => (seen, ret),
+                    Ok((_, None)) => {
+                        out.direct(&tag, false, &format!("c18-fed-file-missing-{}", tag), "lint_paths did not return the file", din);
+                        continue;
+                    }
+                    Err(e) => {
+                        out.direct(&tag, false, &format!("c18-crash-{}", tag), &format!("the library panicked with a formatter attached: {}", trunc(&e, 300)), din);
+                        continue;
+                    }
+                };
+                let js = |vs: &[V]| vs.iter().map(|v| j_rl(&v.rl())).collect::<Vec<_>>();
+                if seen.len() != 1 {
+                    out.direct(&tag, false, &format!("c18-fed-dispatches-{}", tag), &format!("the formatter was handed the file {} times", seen.len()), din.clone());
+                } else if seen[0].1 != ret {
+                    out.direct(&tag, false, &format!("c18-fed-differs-{}", tag), &format!("the formatter is told {:?}, the library returns {:?}", js(&seen[0].1), js(&ret)), din.clone());
+                } else if seen[0].2 != 0 {
+                    out.direct(&tag, false, &format!("c18-fed-covered-{}", tag), &format!("the formatter is handed {} violation(s) that the file's own ignore mask covers: {:?}", seen[0].2, js(&seen[0].1)), din.clone());
+                } else if ret != reference[i] {
+                    out.direct(&tag, false, &format!("c18-fed-result-{}", tag), &format!("with a formatter attached the call returns {:?}, without {:?}", js(&ret), js(&reference[i])), din.clone());
+                } else {
+                    out.direct(&tag, true, "", "", Value::Null);
+                }
+                let gv = |vs: &[V]| g_list(vs.iter().map(|v| v.g()));
+                let gargs = g_list(raw.iter().map(|(v, m)| format!("({},{})", v.g(), g_bool(*m))));
+                let exp = format!("({},{})", gv(seen.first().map(|x| x.1.as_slice()).unwrap_or(&[])), gv(&ret));
+                let sample = json!({"input":c.input_only(&tag),"file":i,"collected":raw.iter().map(|(v, m)| json!([v.line, v.col, v.rule, m])).collect::<Vec<_>>(),
+                    "formatter_given":seen.first().map(|x| js(&x.1)),"returned":js(&ret)});
+                out.case("fed", &tag, !raw.is_empty(), gargs, exp, sample);
+            }
+        }
     }
 
     // ---- lint: 3 formats x (3 modes + 2 several-paths modes when there are at least two files)
@@ -498,9 +701,14 @@ fn run_case(env: &Env, idx: usize, c: &Case, out: &mut Buf) {
             let exp = if ok_status { format!("(Some ({},{}))", r.status.unwrap(), if r.stdout == want { 1 } else { 2 }) } else { "None".to_string() };
             let sample = json!({"input":c.input_only(&tag),"status":r.status});
             out.case("fixstdin", &tag, !fix_vs[0].is_empty(), gargs, exp, sample);
+            // what `fix -` prints (the JSON format prints nothing in this mode)
+            if ok_status && fmt != "json" {
+                fix_report(out, c, fmt, gfmt, mode, &r, &[0], &fix_vs, true);
+            }
             continue;
         }
         let (dir, idxs): (&Path, Vec<usize>) = if mode == "directory" { (&w, (0..c.files.len()).collect()) } else { (&w2, vec![0]) };
+        let din2 = din.clone();
         args.extend_from_slice(&["fix", "--force", "-f", fmt]);
         args.push(if mode == "directory" { "." } else { "f0.sql" });
         let r = run(env, dir, &args, None);
@@ -547,6 +755,15 @@ fn run_case(env: &Env, idx: usize, c: &Case, out: &mut Buf) {
         };
         let sample = json!({"input":c.input_only(&tag),"status":r.status,"writes":writes});
         out.case("fix", &tag, any_viol, gargs, exp, sample);
+        // what `fix <path>` prints (the JSON format prints its report only when there is something to fix)
+        if ok_status {
+            if fmt != "json" || any_viol {
+                fix_report(out, c, fmt, gfmt, mode, &r, &idxs, &fix_vs, false);
+            } else {
+                let said = r.stdout.contains("nothing to fix");
+                out.direct(&format!("fixrep-{}-{}", fmt, mode), said, &format!("c18-fix-report-differs-{}-{}", fmt, mode), "the library finds nothing but fix does not say 'nothing to fix'", din2);
+            }
+        }
     }
     let _ = std::fs::remove_dir_all(&root);
 }
@@ -685,6 +902,57 @@ pub fn main(args: &Args) {
             let rules = RULESETS[rng3.below(RULESETS.len())];
             let mut c = Case::new("ansi", files, rules, rng3.chance(1, 2), if rng3.chance(1, 2) { 0 } else { 1 }, "line-endings");
             c.nocolor = rng3.chance(1, 3);
+            cases.push(c);
+        }
+    }
+    if args.flag("--replay-input").is_none() {
+        // violations that a noqa directive covers, with and without a rule: a parse error (--parsing-errors) or a
+        // malformed directive on a line that carries `-- noqa` or inside a `disable=all` range is found by the library
+        // and dropped by the last filter of lint_parsed; every front-end must stay silent about it as well
+        cases.push(Case::new("ansi", vec![s("SELECT a FROM t WHERE -- noqa\n")], "core", true, 0, "masked"));
+        cases.push(Case::new("ansi", vec![s("-- noqa: disable=all\nSELECT a FROM t -- noqa:\n"), s("SELECT a FROM t -- noqa:\n")], "core", false, 1, "masked"));
+        cases.push(Case::new("ansi", vec![s("SELECT a FROM t; -- noqa: disable=all\nSELECT b FROM WHERE;\n-- noqa: enable=all\nSELECT c  FROM t;\n")], "core", true, 0, "masked"));
+        cases.push(Case::new("ansi", vec![s("SELECT a  FROM t -- noqa\n"), s("SELECT FROM WHERE -- noqa: LT01\n")], "all", true, 2, "masked"));
+        let mut rng4 = Rng::new(args.seed ^ 0xC186);
+        let n = if args.thorough() { 800 } else { 90 };
+        for _ in 0..n {
+            let mut files = vec![];
+            for _ in 0..rng4.range(1, 2) {
+                let mut t = String::new();
+                if rng4.chance(1, 3) {
+                    t.push_str(["-- noqa: disable=all\n", "/* noqa: disable=all */\n", "-- noqa: disable=LT01,CP01\n", "-- noqa: disable=all\n"][rng4.below(4)]);
+                }
+                for k in 0..rng4.range(1, 3) {
+                    if k > 0 && rng4.chance(1, 5) {
+                        t.push_str(["-- noqa: enable=all\n", "-- noqa: enable=LT01\n", "-- noqa: disable=all\n"][rng4.below(3)]);
+                    }
+                    let pool = match rng4.below(10) {
+                        0..=2 => FIXABLE,
+                        3 => UNFIXABLE,
+                        4..=5 => CLEAN,
+                        _ => JUNK,
+                    };
+                    let stmt = pool[rng4.below(pool.len())].trim_end_matches('\n');
+                    t.push_str(stmt);
+                    if !stmt.contains("--") {
+                        if !stmt.trim_end().ends_with(';') && !stmt.is_empty() && rng4.chance(3, 4) {
+                            t.push(';');
+                        }
+                        if rng4.chance(3, 5) {
+                            t.push(' ');
+                            t.push_str(NOQA[rng4.below(NOQA.len())]);
+                        }
+                    }
+                    t.push('\n');
+                }
+                files.push(t);
+            }
+            let dialect = if rng4.chance(3, 4) { "ansi" } else { ["postgres", "bigquery", "snowflake", "sparksql"][rng4.below(4)] };
+            let mut c = Case::new(dialect, files, RULESETS[rng4.below(RULESETS.len())], rng4.chance(2, 3), [0, 0, 1, 2][rng4.below(4)], "masked");
+            c.nocolor = rng4.chance(1, 3);
+            if c.order.len() == 2 && rng4.chance(1, 2) {
+                c.order.swap(0, 1);
+            }
             cases.push(c);
         }
     }
